@@ -1429,6 +1429,19 @@ prop(dict(
 ))
 
 
+prop(dict(
+    id="G07", fam="G07",
+    gen=[("PipelineGen.tla", "PipelineGen.cfg", {"thorough": {"Mtus": "{64, 65, 80, 100, 576, 1200, 1500}", "Sizes": "{10, 50, 51, 52, 53, 54, 88, 200, 1187, 1188, 1189, 3000}"}})],
+    trace=("PipelineTrace.tla", "PipelineTrace.cfg"),
+    shards={"quick": 2, "thorough": 12},
+    nontrivial=lambda c: True,
+    class_of=lambda c: c["class"],
+    rule="GROWTH: frames of H264 NAL units / AV1 OBUs (sizes around the per-packet budget) x MTU x start sequence number (incl. the wrap) through the whole sending pipeline "
+         "(payloader -> Packetizer -> Packet.Marshal); the wire bytes are read by the specification alone (RtpWire!Parse, then H264!RefDepack / AV1Loss!RefRxR) and by the library's own receiver",
+    assumptions=COMMON_ASSUME + ["not one of the listed properties: findings are reported in DESIGN.md 9.7, never as a listed property's violation"],
+))
+
+
 for _id in ("C02", "C03", "C08", "C09", "C10", "C14"):
     PROPS[_id]["rule"] += CORPUS_RULE
 
